@@ -700,6 +700,63 @@ def frozen_and_uri(job):
                 froc.append({"k": k, "label": label, "digest": D, "file_sha256": hashlib.sha256(X).hexdigest(), "len": len(X), "outcome": oc,
                              "returned_file_sha256": real_hash, "octave_write": ow,
                              "pinned_l1": P.decode("latin-1"), "file_l1": X.decode("latin-1")})
+            # ---- hash histories: the SAME reference resolved again, in this process, after the file changed on disk ----
+            hdoc = parse(HYDRATED.replace("{uri}", "placeholder"))
+            hnodes = {getattr(ch, "key", None): ch for sec in hdoc.sections if getattr(sec, "key", None) == "MANIFEST"
+                      for ch in getattr(sec, "children", [])}
+            assert "SOURCE_URI" in hnodes and "SOURCE_HASH" in hnodes, "hydrated template: manifest fields"
+            hhist = []
+            for hi, steps in enumerate(job.get("hash_histories", [])):
+                P = PINNED + ("// history %d\n" % hi).encode()
+                D = hashlib.sha256(P).hexdigest()
+                ref = "frozen@sha256:" + D
+                fname = D[:16] + ".oct.md"
+                cdir = base + "/sb/fh/%d" % hi
+                vdir = base + "/sb/hv%d" % hi
+                os.makedirs(cdir)
+                os.makedirs(vdir)
+                files = {"resolve_hermetic_standard": cdir + "/" + fname, "octave_write": std + "/" + fname,
+                         "check_staleness": vdir + "/vocab.oct.md"}
+                stamp = {}
+                recs = []
+                for si, (content, method) in enumerate(steps):
+                    X = hash_history_bytes(P, content)
+                    for fpath in files.values():
+                        put_bytes(fpath, X, method, stamp)
+                    actual = hashlib.sha256(X).hexdigest()
+                    out_step = {"content": content, "method": method, "file_sha256": actual, "len": len(X), "matches": actual == D}
+                    # compute_vocabulary_hash itself (what every hash-verified surface relies on)
+                    try:
+                        out_step["compute_vocabulary_hash"] = hydrator.compute_vocabulary_hash(Path(files["resolve_hermetic_standard"]))
+                    except BaseException as e:  # noqa
+                        out_step["compute_vocabulary_hash"] = "EXC:" + type(e).__name__
+                    try:
+                        pth = hydrator.resolve_hermetic_standard(ref, cache_dir=Path(cdir))
+                        with open(pth, "rb") as f:
+                            out_step["resolve"] = {"outcome": str(pth).replace(base, "{B}"), "returned_file_sha256": hashlib.sha256(f.read()).hexdigest()}
+                    except hydrator.VocabularyError:
+                        out_step["resolve"] = {"outcome": "REFUSED", "returned_file_sha256": None}
+                    except BaseException as e:  # noqa
+                        out_step["resolve"] = {"outcome": "EXC:" + type(e).__name__, "returned_file_sha256": None}
+                    tgt = base + "/sb/fhdoc.oct.md"
+                    try:
+                        r = asyncio.run(wt.execute(target_path=tgt, content=PINNED_DOC, schema=ref))
+                        out_step["octave_write"] = {"status": r.get("status"), "validation_status": r.get("validation_status"), "schema_name": r.get("schema_name")}
+                    except BaseException as e:  # noqa
+                        out_step["octave_write"] = {"status": "EXC:" + type(e).__name__, "validation_status": None, "schema_name": None}
+                    if os.path.exists(tgt):
+                        os.unlink(tgt)
+                    hnodes["SOURCE_URI"].value = "hv%d/vocab.oct.md" % hi
+                    hnodes["SOURCE_HASH"].value = "sha256:" + D
+                    try:
+                        rs = hydrator.check_staleness(hdoc, base_path=Path(base + "/sb"))
+                        out_step["check_staleness"] = {"status": rs[0].status if rs else "NONE", "actual_hash": rs[0].actual_hash if rs else None}
+                    except BaseException as e:  # noqa
+                        out_step["check_staleness"] = {"status": "EXC:" + type(e).__name__, "actual_hash": None}
+                    recs.append(out_step)
+                os.unlink(files["octave_write"])
+                hhist.append({"id": hi, "digest": D, "steps": [list(x) for x in steps], "results": recs,
+                              "file_name": fname, "cache_dir": cdir.replace(base, "{B}")})
         finally:
             if old_home is None:
                 os.environ.pop("HOME", None)
@@ -785,7 +842,7 @@ def frozen_and_uri(job):
             clis.append((base_rel, uraw, oc, {"escapes": escapes, "cycle_then_dotdot": cycle_then_dotdot(basep, u),
                                              "step1_incomplete": step_incomplete(basep, u, 1),
                                              "outside_reads": outside_reads(ops, root_real)}))
-        return {"base": base, "digests": (dg, dbad), "frozen": fro, "frozen_content": froc, "uris": uris, "cli": clis,
+        return {"base": base, "digests": (dg, dbad), "frozen": fro, "frozen_content": froc, "hash_histories": hhist, "uris": uris, "cli": clis,
                 "oracle": [(good.decode(), dg), (bad.decode(), hashlib.sha256(bad).hexdigest())]}
     finally:
         shutil.rmtree(base, ignore_errors=True)
@@ -840,6 +897,80 @@ def frozen_content_cases(seed, n_random):
             x[pos] = b
         out.append((f"random single-byte {kind} at {pos}", P, bytes(x)))
     return out
+
+
+# ---- hash histories -------------------------------------------------------------------------------------------------
+# content of the cache / vocabulary file at a step, and HOW it got there.  "returned => the bytes hash to D" is a statement about
+# the bytes on disk NOW: a digest remembered for a path, an inode, a size, an mtime (or any combination) shows up here.
+H_CONTENTS = ("honest", "same-length", "same-length-2", "longer", "shorter")
+H_METHODS = ("in-place, mtime restored", "in-place", "replaced inode, mtime restored", "replaced inode", "touched only")
+
+
+def hash_history_bytes(P, content):
+    if content == "honest":
+        return P
+    if content == "same-length":
+        return P.replace(b"UNKNOWN_FIELDS::REJECT", b"UNKNOWN_FIELDS::IGNORE")      # 6 bytes for 6 bytes: a different policy
+    if content == "same-length-2":
+        return P.replace(b'VERSION::"1.0.0"', b'VERSION::"9.9.9"')
+    if content == "longer":
+        return P + b"// appended\n"
+    if content == "shorter":
+        return P.replace(b"UNKNOWN_FIELDS::REJECT", b"UNKNOWN_FIELDS::WARN")
+    raise ValueError(content)
+
+
+def put_bytes(path, X, method, stamp):
+    """Bring the file at `path` to content X by `method`; `stamp[path]` = (atime_ns, mtime_ns) of the FIRST version, restored when
+    the method says so."""
+    if not os.path.exists(path):
+        with open(path, "wb") as f:
+            f.write(X)
+        st = os.stat(path)
+        stamp[path] = (st.st_atime_ns, st.st_mtime_ns)
+        return
+    if method == "touched only":
+        st = os.stat(path)
+        os.utime(path, ns=(st.st_atime_ns, st.st_mtime_ns + 5_000_000_000))
+        stamp[path] = (st.st_atime_ns, st.st_mtime_ns + 5_000_000_000)
+        with open(path, "rb") as f:
+            cur = f.read()
+        if cur == X:
+            return
+        method = "in-place, mtime restored"       # a touch cannot change content: fall through to an in-place write
+    if method.startswith("in-place"):
+        with open(path, "r+b") as f:            # same inode
+            f.seek(0)
+            f.write(X)
+            f.truncate(len(X))
+    else:
+        tmp = path + ".new"
+        with open(tmp, "wb") as f:
+            f.write(X)
+        os.replace(tmp, path)                    # new inode
+    if method.endswith("mtime restored"):
+        os.utime(path, ns=stamp[path])
+
+
+def gen_hash_histories(ctx):
+    """[[(content, method), ...]]: the first step creates the file."""
+    R = "in-place, mtime restored"
+    hs = [
+        [("honest", "new"), ("same-length", R), ("honest", R), ("same-length-2", R)],
+        [("same-length", "new"), ("honest", R), ("same-length", R)],                      # refused first (negative memo), then honest
+        [("honest", "new"), ("longer", R), ("honest", R), ("shorter", R)],
+        [("honest", "new"), ("same-length", "replaced inode, mtime restored"), ("honest", "replaced inode, mtime restored")],
+        [("honest", "new"), ("honest", "touched only"), ("same-length", R), ("honest", "touched only")],
+        [("honest", "new"), ("same-length", "in-place"), ("honest", "in-place"), ("longer", "replaced inode")],
+        [("longer", "new"), ("honest", R), ("same-length-2", R), ("same-length", R), ("honest", R)],
+    ]
+    rng = ctx.rng
+    for _ in range(ctx.scale(6, 400)):
+        h = [(rng.choice(H_CONTENTS), "new")]
+        for _i in range(rng.choice((3, 4, 5, 6))):
+            h.append((rng.choice(H_CONTENTS), rng.choice(H_METHODS)))
+        hs.append(h)
+    return hs
 
 
 def frozen_refs(dg, dbad):
@@ -1351,7 +1482,8 @@ def run(ctx):
         uri_list = [(c.get("base", "sb"), c["source_uri"]) for c in corpus if "source_uri" in c]       # corpus first
         uri_list += [x for x in gen_uris(ctx) if x not in uri_list]
         fu = pool.apply(frozen_and_uri, ({"uris": uri_list, "cli_uris": [x for x in sibling_uris() if "\x00" not in x[1]] + [(c.get("base", "sb"), c["source_uri"]) for c in corpus if "source_uri" in c],
-                                           "seed": ctx.rng.randrange(1 << 30), "n_random": ctx.scale(60, 3000)},))
+                                           "seed": ctx.rng.randrange(1 << 30), "n_random": ctx.scale(60, 3000),
+                                           "hash_histories": gen_hash_histories(ctx)},))
     ctx.extra["rule"] = (
         "corpus first (witnesses of the finding fixed by 039cc0c -- dangling link as last / as directory component, ENOTDIR link, "
         "41-link chain -- must be refused E_PATH by all three tools with an unchanged tree and no read/mutate attempt); then "
@@ -1537,6 +1669,80 @@ def run(ctx):
             mm = "REFUSED" if fmod[j] == "NONE" else dec_path(fmod[j]).replace(base, "{B}")
             if mm != oc:
                 ctx.correspondence_failure(dict(case, model=mm), "resolve_hermetic_standard differs from the model (resolve_frozen with H = SHA-256 of the file's bytes)")
+    # ---- hash histories: after EVERY call, "returned / validated / FRESH  =>  the bytes on disk hash to D" ----
+    hh = fu["hash_histories"]
+    hmod = None
+    if have_model:
+        lines = []
+        for h in hh:
+            cpath = segs + h["cache_dir"].replace("{B}/", "").split("/")
+            for st in h["results"]:
+                # the model has no memory: resolve_frozen on the file as it is at this step (H = SHA-256 of its bytes)
+                ents = ["fs"] + [enc_path(cpath[:i]) + "|d|-" for i in range(1, len(cpath) + 1)]
+                ents.append(enc_path(cpath + [h["file_name"]]) + "|f|" + enc_str(st["file_sha256"]))
+                lines.append(" ".join(ents))
+                lines.append("rfrozen " + enc_path(cpath) + " " + enc_str("frozen@sha256:" + h["digest"]) + " "
+                             + enc_str(st["file_sha256"]) + "=" + enc_str(st["file_sha256"]))
+        hmod = run_driver("pathm", lines)[1::2] if lines else []
+    hk = 0
+    n_hsteps = 0
+    for h in hh:
+        D = h["digest"]
+        for j, st in enumerate(h["results"]):
+            n_hsteps += 1
+            ctx.count(4)
+            same = st["matches"]
+            ctx.nontrivial(("hash-history", h["id"], j, st["content"], st["method"]))
+            tag = ("bytes hash to D" if same else "bytes do NOT hash to D") + " [" + st["method"] + "]"
+            case = {"stream": "hash history (one process; the same reference / manifest is checked again after the file changed on disk)",
+                    "frozen_ref": "frozen@sha256:" + D, "history": h["steps"], "step": j, "content_at_step": st["content"],
+                    "how_written": st["method"], "sha256_of_file_bytes_now": st["file_sha256"], "pinned_digest": D,
+                    "results_of_earlier_steps": [{k: r[k] for k in ("content", "method", "resolve", "octave_write", "check_staleness")}
+                                                 for r in h["results"][:j]]}
+            cvh = st["compute_vocabulary_hash"]
+            ctx.hist("hash_history_compute", tag + " -> " + ("correct" if cvh == "sha256:" + st["file_sha256"] else "WRONG"))
+            if cvh != "sha256:" + st["file_sha256"]:
+                ctx.property_failure(dict(case, surface="compute_vocabulary_hash(path)", returned=cvh),
+                                     "compute_vocabulary_hash returned a digest that is not the SHA-256 of the file's bytes")
+            rv = st["resolve"]
+            ctx.hist("hash_history_resolve", tag + " -> " + ("resolved" if rv["outcome"].startswith("{B}") else rv["outcome"]))
+            if rv["outcome"].startswith("{B}") and rv["returned_file_sha256"] != D:
+                ctx.property_failure(dict(case, surface="resolve_hermetic_standard(ref, cache_dir)", result=rv),
+                                     "frozen@sha256 reference resolved to a cache file whose BYTES do not hash to the digest")
+            if hmod is not None:
+                mm = "REFUSED" if hmod[hk] == "NONE" else "resolved"
+                got = "resolved" if rv["outcome"].startswith("{B}") else rv["outcome"]
+                if mm != got:
+                    ctx.correspondence_failure(dict(case, surface="resolve_hermetic_standard", result=rv, model=mm),
+                                               "resolve_hermetic_standard differs from the model evaluated on the file as it is at this step")
+            hk += 1
+            ow = st["octave_write"]
+            ctx.hist("hash_history_octave_write", tag + " -> " + str(ow["validation_status"]))
+            if not same and ow["validation_status"] != "UNVALIDATED":
+                ctx.property_failure(dict(case, surface="octave_write(schema=frozen@sha256:D), cache ~/.octave/standards", result=ow),
+                                     "octave_write validated against a frozen standard whose cached bytes do not hash to the pinned digest")
+            elif same and ow["validation_status"] == "UNVALIDATED":
+                ctx.correspondence_failure(dict(case, surface="octave_write", result=ow),
+                                           "octave_write did not use a frozen standard whose cached bytes hash to the digest (stale refusal)")
+            cs = st["check_staleness"]
+            ctx.hist("hash_history_staleness", tag + " -> " + cs["status"])
+            if cs["status"] == "FRESH" and not same:
+                ctx.property_failure(dict(case, surface="check_staleness (SOURCE_HASH = sha256:D)", result=cs),
+                                     "check_staleness reported FRESH although the source file's bytes do not hash to SOURCE_HASH")
+            elif cs["actual_hash"] is not None and cs["actual_hash"] != "sha256:" + st["file_sha256"]:
+                ctx.property_failure(dict(case, surface="check_staleness (SOURCE_HASH = sha256:D)", result=cs),
+                                     "check_staleness reported an actual_hash that is not the SHA-256 of the source file's bytes")
+            elif same and cs["status"] != "FRESH":
+                ctx.correspondence_failure(dict(case, surface="check_staleness", result=cs), "check_staleness not FRESH although the bytes hash to SOURCE_HASH")
+    ctx.extra["hash_history_stream"] = {
+        "histories": len(hh), "steps": n_hsteps,
+        "surfaces": ["compute_vocabulary_hash", "resolve_hermetic_standard", "octave_write(schema=frozen@sha256:D)", "check_staleness"],
+        "rule": ("one process; per history a fresh pinned text P (digest D) and three files (cache dir, ~/.octave/standards, vocabulary): "
+                 "step 1 creates them, every further step rewrites them -- content honest / same length (two variants) / longer / shorter; "
+                 "written in place or through a new inode, with the first version's mtime restored (os.utime) or not, or only touched -- "
+                 "and then repeats the IDENTICAL calls. After every call: resolved => sha256(bytes of the returned file now) == D; "
+                 "bytes != D => octave_write UNVALIDATED; FRESH => bytes hash to SOURCE_HASH; compute_vocabulary_hash == sha256(bytes). "
+                 "Orders include refused-first (negative memo). The model is evaluated on the bytes as they are at that step (no memory)")}
     off = len(fu["frozen"])
     def sib_class(u):
         cs = u.replace("{B}", "").split("/")
